@@ -1,5 +1,6 @@
 import EaModel
 import EaModel.Lemmas.Least
+import EaModel.Lemmas.Regular
 import Std.Data.HashMap
 /-!
 # Line protocol interpreter of the executable models
@@ -201,6 +202,17 @@ def handle (d : DState) (line : String) : DState × List String :=
       (d, [match r.replace d.zone day.int! with
         | .ok xs => "ok" ++ String.join (xs.map (fun x => s!" {x}"))
         | .error e => s!"err {e.name}"])
+  | .atom "reent" :: now :: spawner :: id2 :: due2 :: rest =>
+      -- `reent now spawner id2 due2 (id due)*`: the jobs in creation order; the callable of `spawner` creates job id2
+      let rec pairs : List Sx → List Re.J
+        | a :: b :: xs => ⟨a.nat!, b.int!⟩ :: pairs xs
+        | _ => []
+      let q := (pairs rest).foldl Re.insort []
+      let sp : Nat → List Re.J := fun i => if i = spawner.nat! then [⟨id2.nat!, due2.int!⟩] else []
+      (d, (Re.order sp now.int! 10000 q).map fun i => s!"exec {i}")
+  | [.atom "narrow"] =>
+      -- side condition of `timeRegular_of_narrowB`: if it holds the `TimeRegular` hypothesis is a theorem for this table
+      (d, [if d.zone.narrowB then "narrow yes" else "narrow no"])
   | [.atom "regular", tod, sk, rp, d0, d1] =>
       -- executable check of the `TimeRegular` hypothesis (mono + sorted) on a range of local dates
       let r : TimeRep := { tod := tod.int!, skipped := toSkipped sk, repeated := toRepeated rp }
